@@ -169,6 +169,27 @@ class Session:
         for n in (1, 2, 255, 256, 257):
             self.oracle(f'SymbolSegmentHeader with DLUT of {n} entries', KEY_DLUT,
                         lambda n=n: SymbolSegmentHeader(SY='SY', ENCRYP='0', STYPE='B', DLUT=numpy.zeros((n, 3), dtype='uint8')), None, None)
+        # look-up tables with VALUES, handed over in C order, in Fortran order and as a transposed stack of channel planes: the same table
+        # encodes to the same bytes and decodes to the same table whatever its memory layout
+        for n in (2, 5):
+            tab = (numpy.arange(3 * n, dtype='int64').reshape((n, 3)) * 7 % 251).astype('uint8')
+            ref_b = None
+            for nm, arr in (('C order', numpy.ascontiguousarray(tab)), ('Fortran order', numpy.asfortranarray(tab)),
+                            ('transposed channel planes', numpy.ascontiguousarray(tab.T).T)):
+                self.stats['b_cases'] = self.stats.get('b_cases', 0) + 1
+                try:
+                    x = SymbolSegmentHeader(SY='SY', ENCRYP='0', STYPE='B', DLUT=arr)
+                    b = x.to_bytes()
+                    back = SymbolSegmentHeader.from_bytes(b + TRAILER, 0)
+                    if ref_b is None:
+                        ref_b = b
+                    if b != ref_b or not numpy.array_equal(numpy.asarray(back.DLUT), tab):
+                        self.fails.append({'kind': 'boundary', 'case': f'SymbolSegmentHeader DLUT {n} x 3 ({nm})',
+                                           'msg': f'SymbolSegmentHeader with a DLUT of {n} entries handed over in {nm}: the encoding differs from that of the same table in C order, '
+                                                  f'or decodes to another table ({numpy.asarray(back.DLUT).tolist()} for {tab.tolist()})'})
+                except Exception as e:
+                    self.fails.append({'kind': 'boundary', 'case': f'SymbolSegmentHeader DLUT {n} x 3 ({nm})', 'key': KEY_DLUT,
+                                       'msg': f'SymbolSegmentHeader with a DLUT of {n} entries ({nm}): {type(e).__name__}: {str(e)[:100]}'})
         # B. data / payload lengths at capacity-3 .. capacity+1
         c = cap('UnknownTRE.CEL')
         for n in range(c - 3, c + 2):
